@@ -415,7 +415,9 @@ fn visibility(p: &mut Parser) {
 	if !p.at_ts(TS![:]) {
 		p.error_with_recovery_set(TS![=]);
 	}
-	p.bump();
+	if !p.at_end() {
+		p.bump();
+	}
 	'colons: {
 		if !p.at_ts(TS![:]) {
 			break 'colons;
@@ -542,7 +544,11 @@ fn param(p: &mut Parser) {
 }
 fn params_desc(p: &mut Parser) -> CompletedMarker {
 	let m = p.start();
-	p.bump_assert(T!['(']);
+	if !p.at(T!['(']) {
+		p.error_with_no_skip();
+		return m.complete(p, PARAMS_DESC);
+	}
+	p.bump();
 
 	loop {
 		if p.at(T![')']) {
@@ -910,7 +916,12 @@ fn lhs_basic(p: &mut Parser) -> Result<CompletedMarker, CompletedMarker> {
 	} else if p.at(T![import]) || p.at(T![importstr]) || p.at(T![importbin]) {
 		let m = p.start();
 		p.bump();
-		text(p);
+		if Text::can_cast(p.current()) {
+			text(p);
+		} else {
+			let _e = p.expected_syntax_name("string");
+			p.error_with_no_skip();
+		}
 		m.complete(p, EXPR_IMPORT)
 	} else if let Some(op) = UnaryOperatorKind::cast(p.current()) {
 		let ((), right_binding_power) = op.binding_power();
